@@ -1033,6 +1033,7 @@ def text_class(text):
     return '+'.join(tags) or 'ascii'
 
 
+SPEC_TEXTS: dict = {}
 SPEC_FAMILIES = {'regex': (regex_spec_text, regex_spec_class, regex_spec_reductions), 'const': (const_spec_text, const_spec_class, const_spec_reductions)}
 
 
@@ -1067,7 +1068,11 @@ def spec_target(spec, tname):
 
 def shrink_spec(spec, same, budget):
     """Drop the features of a lexical spec one at a time while `same(spec)` holds."""
-    to_text, _, reductions = SPEC_FAMILIES[spec['fam']]
+    gram_text, _, reductions = SPEC_FAMILIES[spec['fam']]
+    regen = SPEC_TEXTS.get(spec['fam'])
+
+    def to_text(sp):
+        return (gram_text(sp), regen(sp) if regen else None)
     changed = True
     while changed and budget > 0:
         changed = False
@@ -1084,9 +1089,9 @@ def shrink_spec(spec, same, budget):
     return spec
 
 
-def judge_spec(col, spec, gtext, target, tname, text, v):
+def judge_spec(col, spec, gtext, target, tname, text, v, seconds=5):
     fam = spec['fam']
-    out = run_variant(target, text, v)
+    out = run_variant(target, text, v, seconds)
     kind = v['input'] if v['input'] != 'textlines' else 'textlines-object'
     col.count(f'{fam}.{tname}.{kind}.{out[0]}')
     if out[0] == 'ok':
@@ -1104,14 +1109,21 @@ def judge_spec(col, spec, gtext, target, tname, text, v):
         return o[0] == cls and (hang or type(o[1]).__name__ == excname)
     stext, sv = shrink_variant(target, text, v, same, budget=6 if hang else 14)
 
+    regen = SPEC_TEXTS.get(fam)      # families whose text is a function of the spec: a reduced spec is tried on ITS text
+
     def same_spec(cand):
         _, tg = spec_target(cand, tname)
-        return tg is not None and same(tg, stext, sv)
+        return tg is not None and same(tg, regen(cand) if regen else stext, sv)
     sspec = shrink_spec(spec, same_spec, 4 if hang else 20)
     sgtext, starget = spec_target(sspec, tname)
+    if regen and sspec is not spec:
+        stext = regen(sspec)
     if starget is not None and not hang:
         stext, sv = shrink_variant(starget, stext, sv, same, budget=8)
     case = {'grammar': sgtext, 'text': stext, 'target': tname, 'variant': repr(sv), 'original': {'grammar': gtext, 'text': text, 'variant': repr(v)}}
+    if regen:       # long texts: the replay keeps the spec the text is made from (SPEC_TEXTS[fam](spec)) and the shrunk text's head
+        case.update(text=stext[:300], text_length=len(stext), spec=sspec)
+        case['original'].update(text=text[:300], text_length=len(text), spec=spec)
     vc = variant_class(sv)
     tail = ':' + SPEC_FAMILIES[fam][1](sspec) + ':text=' + text_class(stext) + (':' + vc if vc else '')
     if hang:
@@ -1192,6 +1204,366 @@ def shard_lexical(col, shard_i, nspecs, ninputs):
                 judge_spec(col, spec, gtext, p, 'generated', text, v)
 
 
+# ------------------------------------------------------------------ scale and name families
+# scale: LONG FLAT texts (a thousand and more units, no nesting) for every construct that iterates - closures, joins, gathers, left and right
+# joins, named lists, skip-to, lookaheads inside a loop, runs of comments / blank space between two elements - over every element and
+# separator form, wrapped in every way a loop can sit in a rule.  None of the grammars has a recursive rule: the depth of the Python stack
+# must not depend on the length of the text (every other family of this check uses texts of at most a dozen units, where a recursion per
+# unit, a quadratic rescan or a per-unit stack frame never shows).
+SC_ELEMS = {     # name: (expression, rules it needs, one unit of text)
+    'tok': ("'a'", [], 'a'),
+    'pat': (r'/\s*\d+/', [], '42'),        # a pattern does not skip the blank space in front of it
+    'rule': ('item', ["item = 'a' ;"], 'a'),
+    'ast-rule': ('pair', [r"pair = k:/[a-z]+/ '=' v:/\d+/ ;"], 'k=1'),
+    'group': ("('a' | 'b')", [], 'b'),
+    'named': ("(e:'a')", [], 'a'),
+    'list-named': (r'(e+:/\s*\w/)', [], 'x'),
+    'int': ('number', ['number = @int ;'], '7'),
+    'override-list': ("(@+:'a')", [], 'a'),
+    'optional-pair': (r"('a' ['b'])", [], 'a b'),
+}
+SC_SEPS = {
+    'tok': ("','", [], ','),
+    'pat': (r'/\s*[+*]/', [], '+'),
+    'rule': ('op', ["op = '+' | '-' ;"], '-'),
+    'word': ("'and'", [], ' and '),
+    'named': ("(o:';')", [], ';'),
+}
+SC_CONSTRUCTS = {    # name: (expression over E and S, how a long text for it is laid out)
+    'closure': ('{E}', 'units'), 'positive-closure': ('{E}+', 'units'),
+    'join': ('S%{E}', 'sep'), 'positive-join': ('S%{E}+', 'sep'), 'gather': ('S.{E}', 'sep'), 'positive-gather': ('S.{E}+', 'sep'),
+    'left-join': ('S<{E}+', 'sep'), 'right-join': ('S>{E}+', 'sep'),
+    'optional-in-closure': ('{[E] S}', 'pairs'), 'choice-in-closure': ('{E | S}', 'pairs'), 'sequence-in-closure': ('{E S}+', 'pairs'),
+    'closure-in-closure': ('{{E}+ S}', 'runs'), 'join-in-closure': ("{S%{E}+ '.'}", 'sentences'),
+    'skip-to': ('{->E}', 'junk'), 'lookahead-in-closure': ('{&E E}', 'units'), 'negative-lookahead-in-closure': ('{!S E}', 'units'),
+    'comments-between': ('{E}', 'comments'), 'eol-comments-between': ('{E}', 'eol-comments'), 'blank-run': ('{E}', 'blanks'),
+}
+SC_WRAPS = {
+    'plain': 'start = L $ ;', 'named': 'start = v:L $ ;', 'subrule': 'start = body $ ;\nbody = L ;', 'override': 'start = @:L $ ;', 'group': 'start = (L) $ ;',
+    'twice': "start = L '|' L $ ;", 'optional': 'start = [L] $ ;', 'retried': "start = L '.' | L '!' | L $ ;", 'list-named': 'start = v+:L w+:L $ ;',
+    'lookahead': 'start = &(L $) L $ ;',
+}
+SC_LAYOUTS = [' ', ' ', '\n', '\r\n', '\t ', '  ', '']
+SC_ENDS = ['good', 'good', 'good', 'bad-end', 'bad-middle', 'dangling']
+SC_KNOWN_DEEP = {'right-join'}      # right_assoc() recurses once per operand (finding D4o, probed by shard_scale_probes with one fixed case)
+
+
+def gen_scale_spec(rng):
+    c = rng.choice(sorted(SC_CONSTRUCTS))
+    n = rng.randint(1100, 3200)
+    if c in SC_KNOWN_DEEP:
+        n = rng.randint(100, 250)
+    if c == 'skip-to':
+        n = min(n, rng.randint(1100, 1600))     # every position of the junk is a full attempt at the element: the slowest construct per unit
+    return {'fam': 'scale', 'construct': c, 'elem': rng.choice(sorted(SC_ELEMS)), 'sep': rng.choice(sorted(SC_SEPS)), 'wrap': rng.choice(sorted(SC_WRAPS)),
+            'layout': rng.choice(SC_LAYOUTS), 'end': rng.choice(SC_ENDS), 'n': n}
+
+
+def scale_spec_text(spec):
+    ex, how = SC_CONSTRUCTS[spec['construct']]
+    e, erules, _ = SC_ELEMS[spec['elem']]
+    s, srules, _ = SC_SEPS[spec['sep']]
+    loop = ex.replace('E', '\x01').replace('S', '\x02').replace('\x01', e).replace('\x02', s)
+    lines = ['@@grammar :: L']
+    if how == 'comments':
+        lines.append(r'@@comments :: /\(\*(?:.|\n)*?\*\)/')
+    if how == 'eol-comments':
+        lines.append(r'@@eol_comments :: /#[^\n]*/')
+    lines.append(SC_WRAPS[spec['wrap']].replace('L', loop))
+    uses_sep = 'S' in ex
+    lines += erules + (srules if uses_sep else [])
+    return '\n'.join(lines) + '\n'
+
+
+def scale_body(spec, n):
+    _, how = SC_CONSTRUCTS[spec['construct']]
+    u = SC_ELEMS[spec['elem']][2]
+    s = SC_SEPS[spec['sep']][2]
+    lay = spec['layout']
+    gap = lay or ' '
+    if how == 'units':
+        return gap.join([u] * n)
+    if how == 'sep':
+        return (lay + s + lay).join([u] * n)
+    if how == 'pairs':
+        return gap.join([u + lay + s] * n)
+    if how == 'runs':
+        return gap.join([gap.join([u] * 3) + lay + s] * (n // 3))
+    if how == 'sentences':
+        return gap.join([(lay + s + lay).join([u] * 4) + lay + '.'] * (n // 4))
+    if how == 'junk':
+        return gap.join(['??' + gap + u] * n)
+    if how == 'comments':
+        return u + gap + ('(* c *)' + lay) * n + gap + u
+    if how == 'eol-comments':
+        return u + gap + ('# c' + ('\r\n' if lay == '\r\n' else '\n')) * n + u
+    return u + gap * n + u       # blanks
+
+
+def scale_text(spec):
+    n = spec['n']
+    body = scale_body(spec, n)
+    if spec['wrap'] == 'twice':
+        body = body + ' | ' + scale_body(spec, max(2, n // 7))
+    elif spec['wrap'] == 'list-named':
+        body = body + (spec['layout'] or ' ') + SC_ELEMS[spec['elem']][2]
+    elif spec['wrap'] == 'retried' and n % 2:
+        body += ' !'
+    end = spec['end']
+    if end == 'bad-end':
+        body += (spec['layout'] or ' ') + '%'
+    elif end == 'bad-middle':
+        k = len(body) // 2
+        body = body[:k] + '%' + body[k:]
+    elif end == 'dangling':
+        body += spec['layout'] + SC_SEPS[spec['sep']][2].strip()
+    return body
+
+
+def scale_spec_class(spec, excname=None):
+    tags = [spec['construct']]
+    ex = SC_CONSTRUCTS[spec['construct']][0]
+    if spec['elem'] != 'tok':
+        tags.append('elem=' + spec['elem'])
+    if 'S' in ex and spec['sep'] != 'tok':
+        tags.append('sep=' + spec['sep'])
+    if spec['wrap'] != 'plain':
+        tags.append('wrap=' + spec['wrap'])
+    if spec['layout'] != ' ':
+        tags.append('layout=' + {'\n': 'lf', '\r\n': 'crlf', '': 'none'}.get(spec['layout'], 'blanks'))
+    if spec['end'] != 'good':
+        tags.append(spec['end'])
+    return '+'.join(tags)
+
+
+def scale_spec_reductions(spec):
+    # the text is shortened by judge_spec itself (halved while the outcome stays); here the features go one at a time
+    for key, plain in (('wrap', 'plain'), ('elem', 'tok'), ('sep', 'tok'), ('layout', ' '), ('end', 'good')):
+        if spec[key] != plain:
+            yield dict(spec, **{key: plain})
+    if spec['n'] > 8:
+        yield dict(spec, n=spec['n'] // 2)
+    if spec['construct'] in ('positive-closure', 'lookahead-in-closure', 'negative-lookahead-in-closure', 'comments-between', 'eol-comments-between', 'blank-run'):
+        yield dict(spec, construct='closure')
+    if spec['construct'] in ('positive-join', 'gather', 'positive-gather'):
+        yield dict(spec, construct='join')
+
+
+SCALE_PROBES = {
+    # name: (grammar, text): a flat chain through a right join; right_assoc() calls itself once per operand
+    'right-join-long': ("start = '+'>{'a'}+ $ ;\n", '+'.join(['a'] * 3000)),
+}
+
+
+def shard_scale_probes(col, shard_i):
+    name = sorted(SCALE_PROBES)[shard_i]
+    gtext, text = SCALE_PROBES[name]
+    out = compile_outcome(gtext)
+    col.case(['scale-probe', name], nontrivial=True)
+    if out[0] != 'ok':
+        col.violation(f'oracle:scale-probe-does-not-compile:{name}', 'a probe grammar does not compile', {'grammar': gtext, 'outcome': out[0]})
+        return
+    res = run_variant(out[1], text, {'input': 'text', 'parse_kw': {}}, 10)
+    col.count(f'scale-probe.{name}.{res[0]}')
+    if res[0] == 'tatsu':
+        check_failure(col, res[1], text, 'scale-probe', {'grammar': gtext, 'text': text[:40] + '...'})
+    elif res[0] != 'ok':
+        col.violation(f'oracle:{"hang" if res[0] == "timeout" else res[0]}:scale-probe:{name}', 'a long flat text ends in unbounded recursion / a foreign exception / a hang',
+                      {'oracle': 'bounded recursion', 'case': {'grammar': gtext, 'text': text[:40] + '...', 'operands': 3000}, 'outcome': res[0],
+                       'exception': repr(res[1])[:200]})
+
+
+# names: every identifier position of the grammar language (rule names in definitions, calls, includes, bases and start=; element labels; rule
+# parameters; keywords; the grammar's name) filled with names of every lexical shape: underscores only ('_', '__': the PEG.js blank-space
+# idiom), leading / trailing underscores, upper / title / mixed case (token rules), digits, characters outside ASCII incl. title-case and
+# caseless letters, Python keywords / builtins / names the engine and the generated classes use themselves, and the shapes just outside the
+# language (leading digit, hyphen, dot, empty).  The other families only ever write the generator's lower-case ASCII names.
+NAME_PRE = ['', '', '', '_', '__']
+NAME_BODY = ['', '', '', 'a', 'ab', 'A', 'Ab', 'AB', 'aB', 'x1', 'x_y', 'X_Y', 'é', 'É', 'ñu', '世', 'ǅ', 'ß', 'ſ', 'µ', 'İ', 'class', 'None', 'True', 'def', 'print', 'self',
+             'len', 'type', 'ctx', 'parse', 'rule', 'start', 'Start', 'int', 'name', 'ast', 'keys', 'items', 'parseinfo', 'EOF', 'if', 'lambda', 'rules', 'tokenizer']
+NAME_SUF = ['', '', '', '_', '__', '1', '_1']
+NAME_NEAR = ['1a', 'a-b', 'a.b', '', "a'", '$', 'a::b', '٣a', 'a\u0301', '²']
+NAME_ROLES = {'r0': 'main', 'r1': 'alpha', 'r2': 'beta', 'r3': 'gamma', 'r4': 'delta', 'l1': 'x', 'l2': 'y', 'g': 'L', 'kw': 'key'}
+NAME_FEATURES = ['nostart', 'based', 'include', 'params', 'decorated', 'colon', 'keyword', 'no-whitespace', 'called-twice']
+
+
+def gen_name(rng):
+    r = rng.random()
+    if r < 0.06:
+        return rng.choice(NAME_NEAR)
+    if r < 0.12:
+        return '_' * rng.randint(1, 3)      # no letter at all
+    return rng.choice(NAME_PRE) + rng.choice(NAME_BODY) + rng.choice(NAME_SUF)
+
+
+def gen_names_spec(rng):
+    names = dict(NAME_ROLES)
+    for role in rng.sample(sorted(NAME_ROLES), rng.choice([1, 1, 2, 3])):
+        names[role] = gen_name(rng)
+    feats = sorted(f for f in NAME_FEATURES if rng.random() < 0.25)
+    startkw = rng.choice(['r1', 'r2', 'r3']) if rng.random() < 0.2 else None
+    return {'fam': 'names', 'names': names, 'features': feats, 'startkw': startkw}
+
+
+def names_spec_text(spec):
+    nm, f = spec['names'], spec['features']
+    colon = 'colon' in f
+    out = [f'@@grammar :: {nm["g"]}']
+    if 'keyword' in f:
+        out.append(f'@@keyword :: {nm["kw"]}')
+    if 'no-whitespace' in f:
+        out.append('@@whitespace :: //')
+
+    def rule(head, body, decorators=()):
+        out.extend('@' + d for d in decorators)
+        out.extend([f'{head}: {body}', ''] if colon else [f'{head} = {body} ;'])
+    sp = r' /\s*/ ' if 'no-whitespace' in f else ' '
+    rule(nm['r0'] if 'nostart' in f else 'start', f'{nm["r1"]}{sp}{nm["r2"]}{sp}$')
+    rule(nm['r1'] + (f'({nm["l1"]})' if 'params' in f else ''), f"{nm['l1']}:'a'{sp}{{{nm['l2']}+:/\\d/{sp}}}", ['name'] if 'decorated' in f else [])
+    rule(nm['r2'], f'{{{nm["r3"]}{sp}}}+' + (f' [{nm["r1"]}]' if 'called-twice' in f else ''))
+    rule(nm['r3'], "'b'" + (f' | >{nm["r1"]}' if 'include' in f else ''))
+    if 'based' in f:
+        rule(f'{nm["r4"]} < {nm["r1"]}', "'c'")
+    return '\n'.join(out) + '\n'
+
+
+def name_class(name):
+    import builtins
+    import keyword
+    import re as _re
+    if not name:
+        return 'empty'
+    if not _re.fullmatch(r'(?!\d)\w+', name):
+        return 'outside-the-language'
+    bare = name.strip('_')
+    if not bare:
+        return 'underscores-only'
+    tags = []
+    if name.startswith('_'):
+        tags.append('lead_')
+    if name.endswith('_'):
+        tags.append('trail_')
+    c = bare[0]
+    tags.append('digits' if bare.isdigit() else 'upper' if c.isupper() else 'title' if c.istitle() else 'lower' if c.islower() else 'caseless')
+    if not bare.isascii():
+        tags.append('nonascii')
+    if keyword.iskeyword(bare) or keyword.issoftkeyword(bare) or hasattr(builtins, bare):
+        tags.append('python-name')
+    return '.'.join(tags)
+
+
+def names_spec_class(spec, excname=None):
+    kinds = {'r': 'rule', 'l': 'label', 'g': 'grammar', 'k': 'keyword'}
+    f = spec['features']
+    used = {role: n for role, n in spec['names'].items()
+            if not ((role == 'r0' and 'nostart' not in f) or (role == 'r4' and 'based' not in f) or (role == 'kw' and 'keyword' not in f))}
+    tags = {kinds[role[0]] + '=' + name_class(n) for role, n in used.items() if n != NAME_ROLES[role]}
+    dup = [n for n in used.values() if list(used.values()).count(n) > 1]
+    if dup:
+        tags.add('same-name-twice')
+    return '+'.join(sorted(tags) + list(spec['features']) + (['start=' + name_class(spec['names'][spec['startkw']])] if spec['startkw'] else []))
+
+
+def names_spec_reductions(spec):
+    for role, n in spec['names'].items():
+        if n != NAME_ROLES[role]:
+            yield dict(spec, names=dict(spec['names'], **{role: NAME_ROLES[role]}))
+    for f in spec['features']:
+        yield dict(spec, features=[x for x in spec['features'] if x != f])
+    if spec['startkw']:
+        yield dict(spec, startkw=None)
+
+
+NAME_TEXT_BITS = ['a', 'b', 'c', '1', '12', ' ', '  ', '\n', 'ab', '!', 'é']
+
+
+def names_texts(rng, spec):
+    good = 'b b' if spec['startkw'] in ('r2', 'r3') else 'a' if spec['startkw'] == 'r1' else rng.choice(['a 1 2 b b', 'a b', 'a12b', 'a 7 b a 1', 'a 1 b b a'])
+    return ['', good, ''.join(rng.choice(NAME_TEXT_BITS) for _ in range(rng.randint(1, 7)))]
+
+
+SPEC_TEXTS['scale'] = scale_text
+SPEC_FAMILIES['scale'] = (scale_spec_text, scale_spec_class, scale_spec_reductions)
+SPEC_FAMILIES['names'] = (names_spec_text, names_spec_class, names_spec_reductions)
+
+
+def shard_shapes(col, shard_i, fam, nspecs):
+    """The scale / names families: compile, generate the parser, parse with both."""
+    rng = col.rng
+    to_text, to_class, _ = SPEC_FAMILIES[fam]
+    for _si in range(nspecs):
+        spec = gen_scale_spec(rng) if fam == 'scale' else gen_names_spec(rng)
+        gtext = to_text(spec)
+        for t in to_class(spec).split('+'):
+            col.count(f'{fam}.feature.' + (t or 'plain'))
+        col.case([fam + '-compile', gtext], nontrivial=True)
+        out = compile_outcome(gtext)
+        col.count(f'{fam}.compile.' + out[0])
+        if out[0] == 'tatsu':
+            check_failure(col, out[1], gtext, f'{fam}:compile', {'grammar': gtext})
+            continue
+        if out[0] != 'ok':
+            cls = out[0]
+            excname = type(out[1]).__name__ if out[1] is not None else 'timeout'
+
+            def same_spec(cand, cls=cls, excname=excname):
+                o = compile_outcome(to_text(cand), 3)
+                return o[0] == cls and (cls == 'timeout' or type(o[1]).__name__ == excname)
+            sspec = shrink_spec(spec, same_spec, 3 if cls == 'timeout' else 30)
+            if fam == 'names':
+                sspec = dict(sspec, startkw=None)       # start= is an argument of parse()
+            col.violation(f'oracle:compile-{cls}:{fam}:{excname}:{to_class(sspec, excname)}', f'compiling a grammar text ended in {excname}, not a TatSu error',
+                          {'oracle': 'compile raises only TatSu errors', 'grammar': to_text(sspec), 'original': gtext, 'exception': repr(out[1])[:300] if out[1] else None})
+            continue
+        m = out[1]
+        p = None
+        if rng.random() < (0.35 if fam == 'scale' else 0.6):
+            p = generated_parser(gtext)
+            if isinstance(p, tuple):
+                col.count(f'{fam}.generated.' + p[0])
+                if p[0] != 'codegen-error' or p[1] not in TATSU_NAMES():
+                    def same_gen(cand, p=p):
+                        ctxt = to_text(cand)
+                        if compile_outcome(ctxt, 3)[0] != 'ok':
+                            return False
+                        q = generated_parser(ctxt)
+                        return isinstance(q, tuple) and q[:2] == p[:2]
+                    sspec = shrink_spec(spec, same_gen, 30)
+                    col.violation(f'oracle:codegen:{fam}:{p[0]}:{p[1]}:{to_class(sspec)}', 'generating the parser of a grammar that compiles raised a foreign exception / hung',
+                                  {'oracle': 'only TatSu exceptions', 'grammar': to_text(sspec), 'original': gtext, 'outcome': p})
+                p = None
+        if getattr(col, 'hangs', 0) >= 2:
+            col.count(f'{fam}.stopped-after-two-hangs')
+            return
+        if fam == 'scale':
+            texts = [scale_text(spec)]
+            seconds = 45        # the parses take 0.05 - 1 s on an idle machine; the deadline only has to tell a hang from a loaded machine
+        else:
+            texts = names_texts(rng, spec)
+            seconds = 5
+        skw = {'start': spec['names'][spec['startkw']]} if fam == 'names' and spec['startkw'] else {}
+        for text in texts:
+            variants = [{'input': 'text', 'parse_kw': dict(skw)}]
+            r = rng.random()
+            if r < 0.35:
+                variants.append({'input': 'buffer', 'parse_kw': dict(skw, parseinfo=True)})
+            elif r < 0.55:
+                variants.append({'input': 'textlines', 'parse_kw': dict(skw, parseinfo=rng.random() < 0.5)})
+            elif r < 0.7:
+                variants.append({'input': 'text', 'parse_kw': dict(skw, memoization=False)})
+            elif r < 0.8:
+                variants.append({'input': 'text', 'parse_kw': dict(skw, parseinfo=True)})
+            elif r < 0.9 and fam == 'names':
+                variants.append({'input': 'text', 'parse_kw': dict(skw, trace=True, colorize=rng.random() < 0.5)})
+            for v in variants:
+                col.case([fam, gtext, len(text), text[:60], repr(v)], nontrivial=bool(text))
+                judge_spec(col, spec, gtext, m, 'model', text, v, seconds)
+            if p is not None:
+                v = rng.choice(variants)
+                col.case([fam + '-gen', gtext, len(text), text[:60], repr(v)], nontrivial=bool(text))
+                judge_spec(col, spec, gtext, p, 'generated', text, v, seconds)
+
+
 def main():
     chk = Check(PID)
     chk.rule = ('M1: the five character-level matchers on ALL strings over {1 _ + - . e a superscript-2 arabic-3 space} up to length 4 (quick) / 5 '
@@ -1208,7 +1580,13 @@ def main():
                 'flags in every position, raw control characters, quotes, slashes, wide characters, slips) in every regex syntax and place incl. the '
                 'directives and string forms, grammar texts with LF/CRLF/CR line ends; evaluated constants (interpolation, expressions, re-evaluated '
                 'literals, unsafe and broken expressions, all constant forms and places) over captures of every value type x texts outside ASCII / '
-                'Latin-1 / the BMP; compile, code generation, model and generated parser, shrunk feature by feature.')
+                'Latin-1 / the BMP; compile, code generation, model and generated parser, shrunk feature by feature. scale: long FLAT texts (1100-3200 '
+                'units) for every iterating construct (closures, joins, gathers, left / right joins, loops around optionals, choices, lookaheads, '
+                'skip-to, runs of comments / blanks) x element / separator forms x the ways a loop sits in a rule x layouts x good / bad ends, no '
+                'recursive rule: no RecursionError, foreign exception or hang, failures far into the text at valid positions. names: every identifier '
+                'position (rule definitions, calls, includes, bases, start=, labels, parameters, keywords, grammar name) x every lexical shape '
+                '(underscores only, leading / trailing underscores, upper / title / mixed case, digits, non-ASCII incl. title-case and caseless, '
+                'Python keywords / builtins / engine attribute names, shapes just outside the language).')
     chk.trusted += ['Python int()/float() accept the literals [+-]?D(_?D)* with D = str.isdecimal (checked on every matched slice by M1)',
                     'unicode predicates are oracles per string; the engine-level and compile-level parts are implementation oracles']
     chk.coq()
@@ -1220,6 +1598,9 @@ def main():
             vlib.run_sharded(chk, shard_engine, 14, extra=(60, 8))
             vlib.run_sharded(chk, shard_compile, 14, extra=(60,))
             vlib.run_sharded(chk, shard_lexical, 14, extra=(120, 5))
+            vlib.run_sharded(chk, shard_shapes, 14, extra=('scale', 9))
+            vlib.run_sharded(chk, shard_shapes, 14, extra=('names', 30))
+            vlib.run_sharded(chk, shard_scale_probes, len(SCALE_PROBES), procs=1)
             vlib.run_sharded(chk, shard_const_probes, len(CONST_PROBES))
             vlib.run_sharded(chk, shard_undefined, 1, procs=1)
         else:
@@ -1227,6 +1608,9 @@ def main():
             vlib.run_sharded(chk, shard_engine, 28, extra=(150, 10))
             vlib.run_sharded(chk, shard_compile, 28, extra=(400,))
             vlib.run_sharded(chk, shard_lexical, 28, extra=(400, 6))
+            vlib.run_sharded(chk, shard_shapes, 28, extra=('scale', 40))
+            vlib.run_sharded(chk, shard_shapes, 28, extra=('names', 200))
+            vlib.run_sharded(chk, shard_scale_probes, len(SCALE_PROBES), procs=1)
             vlib.run_sharded(chk, shard_const_probes, len(CONST_PROBES))
             vlib.run_sharded(chk, shard_undefined, 1, procs=1)
         chk.obligation('M1: matchers vs Matchers.v (exhaustive small scope)', 'correspondence',
